@@ -10,6 +10,7 @@ CC=gcc
 case "$FLAV" in
   mc)        CFLAGS="-O1 -g -fno-omit-frame-pointer"; SAN="";;
   mc-asan)   CFLAGS="-O1 -g -fno-omit-frame-pointer -fsanitize=address,undefined -fno-sanitize-recover=undefined -fno-sanitize=alignment"; SAN=1;;
+  mc-asan-nopool) CFLAGS="-O1 -g -fno-omit-frame-pointer -fsanitize=address,undefined -fno-sanitize-recover=undefined -fno-sanitize=alignment -DABTMC_NO_MEM_POOL"; SAN=1;;
   mc-nobar)  CFLAGS="-O1 -g -fno-omit-frame-pointer -DABTMC_NO_PTHREAD_BARRIER"; SAN="";;
   free-tsan) CC=clang; CFLAGS="-O1 -g -fno-omit-frame-pointer -fsanitize=thread -DABTMC_PASSTHROUGH"; SAN=2;;
   *) echo "unknown flavour $FLAV" >&2; exit 2;;
@@ -42,6 +43,11 @@ elif [ -f /repo/src/include/abt_config.h ]; then
   cp /repo/src/include/abt_config.h $B/include/
 else
   cp $V/engine/fallback/abt_config.h $B/include/
+fi
+if [ "$FLAV" = "mc-asan-nopool" ]; then
+  # every descriptor and stack comes straight from malloc/free: the address
+  # sanitizer then sees uses after free that the memory pools would hide
+  sed -i 's/^#define ABT_CONFIG_USE_MEM_POOL 1/\/* #undef ABT_CONFIG_USE_MEM_POOL *\//' $B/include/abt_config.h
 fi
 if [ "$FLAV" = "mc-nobar" ]; then
   sed -i 's/^#define HAVE_PTHREAD_BARRIER_INIT 1/\/* #undef HAVE_PTHREAD_BARRIER_INIT *\//' $B/include/abt_config.h
